@@ -99,4 +99,9 @@ w('g2_kick_empties_channel', ['C16', 'C09', 'C04'], 'MainState::process_kick',
    ['a', 'send', 'TOPIC #ke :old topic'], ['a', 'send', 'MODE #ke +o bob'], ['a', 'recv'], ['b', 'recv'], ['a', 'send', 'PART #ke'], ['a', 'recv'], ['b', 'recv'],
    ['b', 'send', 'KICK #ke bob :alone'], ['b', 'recv', 'kick'], ['c', 'send', 'LIST'], ['c', 'recv', 'list'], ['c', 'send', 'JOIN #ke'], ['c', 'recv', 'join']],
   "panic or any('#ke' in l for l in R['list']) or any(' 332 ' in l for l in R['join']) or not any(' 353 ' in l and '~carol' in l for l in R['join'])")
+w('g2_wildcard_literal_star', ['C14', 'C07'], 'match_wildcard',
+  'a mask with * does not match a text that itself contains a literal * (or ?) where the mask star is first tried',
+  [reg('a', 'alice'), ['a', 'send', 'JOIN #wc'], ['a', 'recv'], ['a', 'send', 'MODE #wc +b *ad!*@*'], ['a', 'recv'], ['b', 'reg', '*bad'], ['b', 'send', 'JOIN #wc'], ['b', 'recv', 'join'],
+   ['a', 'send', 'MODE #wc -b *ad!*@*'], ['a', 'send', 'MODE #wc +b ?x*!*@*'], ['a', 'recv'], ['c', 'reg', '?xy'], ['c', 'send', 'JOIN #wc'], ['c', 'recv', 'join2']],
+  "panic or not any(' 001 ' in l for l in R['reg_b']) or not any(' 474 ' in l for l in R['join']) or not any(' 474 ' in l for l in R['join2'])")
 print('written')
